@@ -245,6 +245,8 @@ class Dispatch:
 
     def __init__(self, fn: ast.AST, is_subject=None, classify=None, extra=None) -> None:
         self.g = build_cfg(fn)
+        self.is_subject = is_subject
+        self.classify = classify
         self.extra = extra  # optional: fixed outcome (True / False) for tests that are not key tests
         self.tests: dict[int, tuple[frozenset[str], bool]] = {}
         for n in self.g.nodes:
@@ -253,17 +255,134 @@ class Dispatch:
                 if kt is not None:
                     self.tests[n.id] = kt
         self.keys: set[str] = set().union(*[k for k, _ in self.tests.values()]) if self.tests else set()
+        for x in walk_no_nested(fn):
+            if isinstance(x, ast.Compare):
+                kt = classify(x) if classify is not None else (key_test(x, is_subject) if is_subject is not None else None)
+                if kt is not None:
+                    self.keys |= set(kt[0])
 
     def under(self, key: str | None) -> list[Node]:
         def decide(n: Node) -> bool | None:
             kt = self.tests.get(n.id)
             if kt is None:
+                if isinstance(n.ast, ast.Name):
+                    v = self._named_condition(key, n)
+                    if v is not None:
+                        return v
                 return self.extra(n.ast) if self.extra is not None and n.ast is not None else None
             keys, positive = kt
             return (key in keys) == positive
 
         ids = self.g.reach_assuming(decide)
         return [n for n in self.g.nodes if n.id in ids]
+
+    def only_if_under(self, key: str | None, target: int, test_node: int, polarity: bool) -> bool:
+        """Control dependence relative to the assumption subject == key: with the key's decided edges removed, is ``target`` reached
+        only through the ``polarity`` outcome of ``test_node``?"""
+        def decide(n: Node) -> bool | None:
+            kt = self.tests.get(n.id)
+            if kt is None:
+                if isinstance(n.ast, ast.Name):
+                    v = self._named_condition(key, n)
+                    if v is not None:
+                        return v
+                return self.extra(n.ast) if self.extra is not None and n.ast is not None else None
+            return (key in kt[0]) == kt[1]
+
+        be = []
+        for n in self.g.nodes:
+            if n.kind != "test":
+                continue
+            dd = decide(n)
+            if dd is not None:
+                drop = "false" if dd else "true"
+                be += [(n.id, m, l) for m, l in self.g.succ[n.id] if l == drop]
+        lab = "true" if polarity else "false"
+        cut = [(test_node, m, l) for m, l in self.g.succ[test_node] if l == lab]
+        if not cut:
+            return False
+        return target in self.g.reachable([self.g.entry], blocked_edges=be) and target not in self.g.reachable([self.g.entry], blocked_edges=be + cut)
+
+    def _named_condition(self, key: str | None, t: Node) -> bool | None:
+        """Outcome of a test on a named boolean (``is_fixed = default == X.FIXED`` ... ``if is_fixed:``) under ``key``: decided when
+        every definition that reaches the test is a pure combination of key tests with the same truth value."""
+        found, hit_entry = reaching_defs(self.g, t.id, t.ast.id)
+        table = _def_nodes(self.g).get(t.ast.id, {})
+        if not found or hit_entry:
+            return None
+
+        def pure(e: ast.expr) -> bool | None:
+            if isinstance(e, ast.UnaryOp) and isinstance(e.op, ast.Not):
+                v = pure(e.operand)
+                return None if v is None else not v
+            if isinstance(e, ast.BoolOp):
+                vals = [pure(x) for x in e.values]
+                if isinstance(e.op, ast.Or):
+                    return True if any(v is True for v in vals) else (False if all(v is False for v in vals) else None)
+                return False if any(v is False for v in vals) else (True if all(v is True for v in vals) else None)
+            if isinstance(e, ast.Compare):
+                kt = self.classify(e) if self.classify is not None else (key_test(e, self.is_subject) if self.is_subject is not None else None)
+                if kt is not None:
+                    return (key in kt[0]) == kt[1]
+            return None
+
+        vals = {pure(table[d]) if table[d] is not None else None for d in found}
+        return vals.pop() if len(vals) == 1 else None
+
+    # ---- expression-level partial evaluation (conditions kept in named booleans / conditional expressions)
+    def truth_under(self, fi: FuncInfo, key: str | None, at: Node, e: ast.expr, depth: int = 5) -> bool | None:
+        """Truth of a condition when the subject equals ``key`` (None = undetermined)."""
+        if depth <= 0:
+            return None
+        if isinstance(e, ast.Constant):
+            return bool(e.value)
+        if isinstance(e, ast.UnaryOp) and isinstance(e.op, ast.Not):
+            v = self.truth_under(fi, key, at, e.operand, depth - 1)
+            return None if v is None else not v
+        if isinstance(e, ast.BoolOp):
+            vals = [self.truth_under(fi, key, at, x, depth - 1) for x in e.values]
+            if isinstance(e.op, ast.Or):
+                return True if any(v is True for v in vals) else (False if all(v is False for v in vals) else None)
+            return False if any(v is False for v in vals) else (True if all(v is True for v in vals) else None)
+        if isinstance(e, ast.Compare):
+            kt = self.classify(e) if self.classify is not None else key_test(e, self.is_subject)
+            if kt is not None:
+                keys, positive = kt
+                return (key in keys) == positive
+            return None
+        if isinstance(e, ast.Name):
+            vals = {self.truth_under(fi, key, d, v, depth - 1) for v, d in self._defs_under(fi, key, at, e)}
+            return vals.pop() if len(vals) == 1 else None
+        return None
+
+    def _defs_under(self, fi: FuncInfo, key: str | None, at: Node, name: ast.Name) -> list[tuple[ast.expr, Node]]:
+        ids = {n.id for n in self.under(key)}
+        found, hit_entry = reaching_defs(self.g, at.id, name.id)
+        table = _def_nodes(self.g).get(name.id, {})
+        return [(table[d], self.g.nodes[d]) for d in found if d in ids and table[d] is not None and d != at.id]
+
+    def values_under(self, fi: FuncInfo, key: str | None, at: Node, e: ast.expr, depth: int = 6) -> list[ast.expr]:
+        """Leaf expressions ``e`` can evaluate to at node ``at`` when the subject equals ``key``: conditional expressions are decided,
+        locals are followed through the definitions that are reachable under the key."""
+        if depth <= 0:
+            return [e]
+        if isinstance(e, ast.IfExp):
+            t = self.truth_under(fi, key, at, e.test)
+            arms = [e.body] if t is True else ([e.orelse] if t is False else [e.body, e.orelse])
+            return [x for a in arms for x in self.values_under(fi, key, at, a, depth - 1)]
+        if isinstance(e, ast.Name) and isinstance(e.ctx, ast.Load):
+            defs = self._defs_under(fi, key, at, e)
+            if defs:
+                return [x for v, d in defs for x in self.values_under(fi, key, d, v, depth - 1)]
+        return [e]
+
+    def exclusive(self, key: str | None) -> list[Node]:
+        """Nodes reachable under ``key`` and under no other key (for None: the genuine default branch)."""
+        mine = {n.id for n in self.under(key)}
+        for k in [*sorted(self.keys), None]:
+            if k != key:
+                mine -= {n.id for n in self.under(k)}
+        return [n for n in self.g.nodes if n.id in mine]
 
     def specific(self, key: str | None) -> list[Node]:
         """Nodes reachable under ``key`` but not under every other key / the default."""
